@@ -90,6 +90,28 @@ func shape2D(k int) []vector2.Float64 {
 	return all[:k]
 }
 
+// outlineForm: the FORM in which a caller may hand over one and the same outline (GenShapes.tla, flag of
+// 12/13): 0 as is, 1 as a closed polyline (first point repeated at the end, as 2D tools export it),
+// 2 with a point given twice in a row, 3 in the opposite direction, 4 closed and in the opposite direction.
+func outlineForm(pts []vector2.Float64, form int) []vector2.Float64 {
+	out := append([]vector2.Float64{}, pts...)
+	if len(out) == 0 {
+		return out
+	}
+	if form == 3 || form == 4 {
+		for i, j := 0, len(out)-1; i < j; i, j = i+1, j-1 {
+			out[i], out[j] = out[j], out[i]
+		}
+	}
+	if form == 1 || form == 4 {
+		out = append(out, out[0])
+	}
+	if form == 2 && len(out) >= 2 {
+		out = append(out[:2], out[1:]...)
+	}
+	return out
+}
+
 var latticePts = []vector2.Float64{
 	vector2.New(0., 0.), vector2.New(4., 1.), vector2.New(1., 5.), vector2.New(6., 6.), vector2.New(3., 2.),
 	vector2.New(7., 3.), vector2.New(2., 7.), vector2.New(5., 4.),
@@ -206,9 +228,9 @@ func RunGenerator(c GenCase) modeling.Mesh {
 		}
 		return ci.Extrude()
 	case 12:
-		return extrude.Shape(shape2D(at(p, 1)), pathPoints(at(p, 2)))
+		return extrude.Shape(outlineForm(shape2D(at(p, 1)), at(p, 3)), pathPoints(at(p, 2)))
 	case 13:
-		return extrude.ClosedShape(shape2D(at(p, 1)), pathPoints(at(p, 2)))
+		return extrude.ClosedShape(outlineForm(shape2D(at(p, 1)), at(p, 3)), pathPoints(at(p, 2)))
 	case 14:
 		lps := []extrude.LinePoint{}
 		for i, pt := range pathPoints(at(p, 1)) {
